@@ -126,11 +126,15 @@ func genGood(r *Rng, o Opt, i int) Entry {
 }
 
 func msgLen(r *Rng) int {
-	switch r.Pick(5, 3, 1) {
+	switch r.Pick(100, 60, 20, 1) {
 	case 0:
 		return r.Range(0, 40)
 	case 1:
 		return []int{0, 1, 63, 64, 65, 111, 112, 127, 128, 129, 200}[r.Intn(11)]
+	case 3:
+		// messages beyond any internal chunk or buffer size an implementation
+		// may have grown (4 KiB, 64 KiB, 128 KiB) - rare, they cost real time
+		return []int{4095, 4097, 65535, 65536, 65537, 70001, 131071, 131073, 150001}[r.Intn(9)]
 	}
 	return r.Range(200, 700)
 }
@@ -1005,11 +1009,20 @@ func checkBatch(c *Case, v *Verdict) {
 				return
 			}
 		}
-		if len(out.Remainder) == 0 && len(out.Fallbacks) == 0 && dev.Delivered == 0 && !op.NilRd {
+		if len(out.Remainder) == 0 && len(out.Fallbacks) == 0 && dev.Delivered == 0 {
 			v.fail("c17-no-entropy-drawn", "randomisers drawn from the entropy source", act,
 				"an all-valid %d-entry batch was accepted without a single byte of entropy being read: the randomised batch equation cannot have been evaluated", n)
 			return
 		}
+	}
+	if is("C06") && dev.ErrKind == 0 && allValid && n >= 4 && out.err == nil && len(out.Fallbacks) == 0 && dev.Delivered == 0 {
+		// C06's soundness clause is about randomisers drawn from the stream the
+		// caller supplies (crypto/rand.Reader when it supplies none): a batch
+		// accepted by the equation without a byte of it was checked against
+		// coefficients that anyone who knows the batch can compute
+		v.fail("batch-no-entropy-drawn", "randomisers drawn from the entropy source", act,
+			"an all-valid %d-entry batch was accepted by the batch equation although not a single byte was read from the entropy source (nil reader: %v)", n, op.NilRd)
+		return
 	}
 	if is("C17") && dev.ErrKind == 0 {
 		// (a stream that failed during the call is not an entropy stream: an
